@@ -221,10 +221,23 @@ def trust_part(job, r):
         if cons:
             c('constraints 0 ' + ' '.join('%s=%s' % (k, v.replace(' ', ' ') if False else v) for k, v in cons.items() if ' ' not in v))
             cons = {k: v for k, v in cons.items() if ' ' not in v}
-        q = c('pubfileparse 0 0 ' + raw.hex())
+        # the file may have been parsed in ANOTHER context with its own, different trust configuration: only the verifying context counts
+        parse_ctx = 0
+        if i >= 4 and rng.random() < 0.4 or i in (1, 3):
+            parse_ctx = 1
+            c('ctx 1')
+            pa = rng.choice(['good', 'other', 'none', 'both'])
+            c('truststore 1 ' + ' '.join({'good': [w.ca.pem], 'other': [w.ca2.pem], 'none': [], 'both': [w.ca.pem, w.ca2.pem]}[pa]))
+            pc = rng.choice([{EMAIL: subj[EMAIL]}, {EMAIL: 'nobody@guardtime.test'}, {}, {CN: subj[CN]}, {CN: 'other.example'}])
+            if pc:
+                c('constraints 1 ' + ' '.join('%s=%s' % kv for kv in pc.items()))
+            r.count('parsed_in_other_context')
+        q = c('pubfileparse %d 0 %s' % (parse_ctx, raw.hex()))
         if q.rc != 0:
             r.viol('structure:valid-file-rejected', 'file rejected rc=%#x' % q.rc, raw.hex())
             c('ctxfree 0')
+            if parse_ctx:
+                c('ctxfree 1')
             continue
         api = rng.choice(['verify', 'ctx'])
         v = c('pubfileverify 0 0 api=%s' % api)
@@ -235,16 +248,18 @@ def trust_part(job, r):
             cons_ok = bool(cons) and signer_subject_ok
         should = range_kind == 'exact' and chain_ok and cons_ok
         trusted = v.rc == 0
-        r.observe((range_kind, anchors, cons_kind, signer is w.signer, api, trusted))
+        r.observe((range_kind, anchors, cons_kind, signer is w.signer, api, trusted, parse_ctx))
         r.count('verify_%s' % ('trusted' if trusted else 'untrusted'))
-        replay = 'range=%s anchors=%s constraints=%s signer=%s api=%s file=%s' % (range_kind, anchors, cons, 'good' if signer is w.signer else ('foreign-ca' if signer is w.foreign else 'other-subject'), api, raw.hex())
+        replay = 'parsed-in-other-context=%d range=%s anchors=%s constraints=%s signer=%s api=%s file=%s' % (parse_ctx, range_kind, anchors, cons, 'good' if signer is w.signer else ('foreign-ca' if signer is w.foreign else 'other-subject'), api, raw.hex())
         if trusted and not should:
             why = ('signed-range-' + range_kind) if range_kind != 'exact' else ('untrusted-anchor' if not chain_ok else ('no-constraints' if not cons else 'constraint-mismatch:' + cons_kind))
-            r.viol('verify:%s:trusted' % why, 'publications file reported trusted although %s' % why, replay)
+            r.viol('verify:%s:trusted%s' % (why, ':parsed-in-other-context' if parse_ctx else ''), 'publications file reported trusted although %s' % why, replay)
         if not trusted and should:
-            r.viol('verify:valid-file-not-trusted', 'correct file, anchor and constraints: rc=%#x' % v.rc, replay)
+            r.viol('verify:valid-file-not-trusted%s' % (':parsed-in-other-context' if parse_ctx else ''), 'correct file, anchor and constraints: rc=%#x' % v.rc, replay)
         c('pubfilefree 0')
         c('ctxfree 0')
+        if parse_ctx:
+            c('ctxfree 1')
     pool.check_exit(None, r, sess.ex)
 
 
